@@ -105,7 +105,7 @@ def run(tier):
     # header word, every burst pattern up to MaxBurst bits, truncations/extensions of a corpus built by RegpOps)
     e1cases = []
     r0 = vf.tlc_must_pass('RegpMC.tla', 'RegpMC.cfg' if quick else 'RegpMCt.cfg', 'regpmc', heap='16g',
-                          sink=lambda b: e1cases.append(b[3:]) if b.startswith('C;;') else None)
+                          sink=lambda b: e1cases.append(flavoured(b[3:])) if b.startswith('C;;') else None)
     v.add_tlc(r0)
     # E1: TLC-generated corrupted frames with the allowed observations, replayed on the real receiver
     res1 = vf.run_scripts('regp', [e1cases[i:i + 200] for i in range(0, len(e1cases), 200)], 'C07', name='mc')
